@@ -210,6 +210,18 @@ func (g *G) parseBases(tier string) [][2]string {
 	add([]byte(`{"spdxVersion":"SPDX-2.3"}`), "bare-spdx")
 	add([]byte(`{"bomFormat":"CycloneDX","specVersion":"1.5"}`), "bare-cdx")
 	add([]byte(`{"spdxVersion":"SPDX-2.3","SPDXID":"SPDXRef-DOCUMENT","documentNamespace":null,"packages":[{"SPDXID":"SPDXRef-p","name":"p"}]}`), "spdx-null-namespace")
+	// what other generators write: the described element stated twice (and once more in documentDescribes),
+	// an organisation as originator without a supplier, files listed next to the package that contains them
+	add([]byte(`{"spdxVersion":"SPDX-2.3","dataLicense":"CC0-1.0","SPDXID":"SPDXRef-DOCUMENT","name":"twice","documentNamespace":"https://example.com/twice",
+"creationInfo":{"created":"2023-01-01T00:00:00Z","creators":["Tool: t"]},"documentDescribes":["SPDXRef-app"],
+"packages":[{"SPDXID":"SPDXRef-app","name":"app","downloadLocation":"NOASSERTION","originator":"Organization: ACME","supplier":"NOASSERTION"},
+{"SPDXID":"SPDXRef-lib","name":"lib","downloadLocation":"NOASSERTION","originator":"Organization: Upstream (up@example.com)"}],
+"files":[{"SPDXID":"SPDXRef-f","fileName":"./bin/app","checksums":[{"algorithm":"SHA1","checksumValue":"aa"}]}],
+"relationships":[{"spdxElementId":"SPDXRef-DOCUMENT","relationshipType":"DESCRIBES","relatedSpdxElement":"SPDXRef-app"},
+{"spdxElementId":"SPDXRef-DOCUMENT","relationshipType":"DESCRIBES","relatedSpdxElement":"SPDXRef-app"},
+{"spdxElementId":"SPDXRef-DOCUMENT","relationshipType":"DESCRIBES","relatedSpdxElement":"SPDXRef-lib"},
+{"spdxElementId":"SPDXRef-app","relationshipType":"CONTAINS","relatedSpdxElement":"SPDXRef-f"},
+{"spdxElementId":"SPDXRef-app","relationshipType":"DEPENDS_ON","relatedSpdxElement":"SPDXRef-lib"}]}`), "spdx-describes-twice")
 	if tier == "thorough" {
 		repo := os.Getenv("VERIF_REPO")
 		if repo == "" {
@@ -272,6 +284,7 @@ func parseGen(g *G, tier string) []M {
 		raw, src := []byte(bs[0]), bs[1]
 		ops = append(ops, M{"op": "parse", "in": parseInput(raw, src, "none")})
 		ops = append(ops, M{"op": "layouts", "in": parseInput(raw, src, "none")})
+		ops = append(ops, M{"op": "sniffPair", "in": parseInput(raw, src, "none")}, M{"op": "parseEditParse", "in": parseInput(raw, src, "none")})
 		for _, f := range []formats.Format{formats.SPDX23JSON, formats.CDX13JSON, formats.CDX15JSON, formats.SPDX22JSON, formats.CDX12JSON, "bogus"} {
 			ops = append(ops, M{"op": "parseAs", "f": string(f), "in": parseInput(raw, src, "none")})
 		}
@@ -311,6 +324,10 @@ func parseGen(g *G, tier string) []M {
 				continue
 			}
 			in := parseInput(ft.Bytes(), src, f.k+"@"+t.PathString(f.p))
+			if len(f.p) == 1 {
+				// faults at the declaration level also go to the detector on its own
+				ops = append(ops, M{"op": "sniffPair", "in": in})
+			}
 			if g.Chance(0.15) {
 				ops = append(ops, M{"op": "parseAs", "f": string(g.Pick2F()), "in": in})
 			} else {
@@ -535,6 +552,33 @@ func ExecParse(op M) (res any) {
 		return fmt.Sprintf("known-blowup: %d licence entries", n)
 	}
 	switch asStr(op["op"]) {
+	case "sniffPair":
+		// format detection on its own: exactly one of a format and an error, through both entry points
+		f, err := (&formats.Sniffer{}).SniffReader(bytes.NewReader(b))
+		return M{"format": string(f), "err": err != nil}
+	case "parseEditParse":
+		// what a parse returns belongs to the caller: editing it in place changes nothing for the
+		// other nodes of the same result nor for the next parse of the same bytes
+		c1, d1 := runParse(b, "")
+		if d1 == nil {
+			return M{"class": c1}
+		}
+		before := js(parseCanon(DocJ(d1)))
+		if len(d1.NodeList.Nodes) > 0 {
+			first := d1.NodeList.Nodes[0]
+			rest := &sbom.NodeList{Nodes: d1.NodeList.Nodes[1:]}
+			restBefore := js(NLJ(rest))
+			mutateEverywhere(first)
+			if js(NLJ(rest)) != restBefore {
+				return M{"class": "doc", "siblings": true}
+			}
+		}
+		mutateEverywhere(d1)
+		c2, d2 := runParse(b, "")
+		if d2 == nil {
+			return M{"class": "doc", "second": c2}
+		}
+		return M{"class": "doc", "same": js(parseCanon(DocJ(d2))) == before}
 	case "layouts":
 		return layoutsVerdict(b)
 	case "parse":
@@ -627,6 +671,39 @@ func spdxRefsResolve(b []byte) (ok bool) {
 
 func oracleParse(op M, res any, exec func(M) any) []Finding {
 	var out []Finding
+	switch asStr(op["op"]) {
+	case "sniffPair":
+		if r, ok := res.(M); ok {
+			src := asStr(op["in"].(M)["src"]) + ", fault " + asStr(op["in"].(M)["fault"])
+			switch f, e := asStr(r["format"]), r["err"] == true; {
+			case f == "" && !e:
+				for _, p := range []string{"C04", "C06"} {
+					out = append(out, Finding{p, "format detection (" + src + ") returns neither a format nor an error"})
+				}
+			case f != "" && e:
+				for _, p := range []string{"C04", "C06"} {
+					out = append(out, Finding{p, "format detection (" + src + ") returns both a format (" + f + ") and an error"})
+				}
+			}
+		} else if s, ok := res.(string); ok && strings.HasPrefix(s, "panic") {
+			out = append(out, Finding{"C04", "format detection panicked: " + s})
+		}
+		return out
+	case "parseEditParse":
+		if r, ok := res.(M); ok {
+			src := asStr(op["in"].(M)["src"]) + ", fault " + asStr(op["in"].(M)["fault"])
+			if r["siblings"] == true {
+				out = append(out, Finding{"C05", "editing one node of a parsed graph (" + src + ") in place changed other nodes of the same graph"})
+			}
+			if r["second"] != nil {
+				out = append(out, Finding{"C05", fmt.Sprintf("the same bytes (%s) parse to a document, and after the caller edited that document to %v", src, r["second"])})
+			}
+			if r["same"] == false {
+				out = append(out, Finding{"C05", "parsing the same bytes (" + src + ") again after the caller edited the first result in place gives another graph"})
+			}
+		}
+		return out
+	}
 	if s, ok := res.(string); ok && strings.HasPrefix(s, "known-blowup") {
 		return []Finding{{"C04", "licence expression grows exponentially: " + s}}
 	}
@@ -807,8 +884,11 @@ var ParseStream = &Stream{
 	Canon:      parseCanon,
 	Nontrivial: func(op M) bool { return true },
 	OpProps: func(op M) []string {
-		if o := asStr(op["op"]); o == "newId" || o == "layouts" {
+		if o := asStr(op["op"]); o == "newId" || o == "layouts" || o == "parseEditParse" {
 			return []string{"C05"}
+		}
+		if asStr(op["op"]) == "sniffPair" {
+			return []string{"C04", "C06"}
 		}
 		return []string{"C04", "C05"}
 	},
@@ -820,7 +900,7 @@ var ParseStream = &Stream{
 		if asStr(op["op"]) == "newId" {
 			return false
 		}
-		if asStr(op["op"]) == "layouts" {
+		if o := asStr(op["op"]); o == "layouts" || o == "sniffPair" || o == "parseEditParse" {
 			return true
 		}
 		in, _ := op["in"].(M)
